@@ -124,7 +124,7 @@ def _shared_lock_field(ctx, ty, field):
     if not fty.startswith("std::sync::Arc<"):
         return False
     cb = ctx.facts.body(clone_name)
-    for bi, si, s in core.aggregates(cb, lambda a: a == ty):
+    for bi, si, s in core.aggregates(cb, lambda a: a == ty, in_clone=True):
         rv = s["rv"]
         idx = rv["fields"].index(field)
         op = cb.term_operand(rv["ops"][idx])
